@@ -29,7 +29,7 @@ def main():
                     print(f"MUTANT-ERROR: pattern occurs {s.count(e['old'])}x in {e['file']}"); return 3
                 open(p, "w").write(s.replace(e["old"], e["new"]))
         else:
-            r = subprocess.run(["patch", "-p1", "-s", "-d", dst, "-i", os.path.abspath(mut)])
+            r = subprocess.run(["patch", "-p1", "-s", "-F0", "-d", dst, "-i", os.path.abspath(mut)])
             if r.returncode: print("MUTANT-ERROR: patch failed"); return 3
         env = dict(os.environ, VERIF_REPO=dst, VERIF_SEED=seed, VERIF_EVIDENCE_DIR=os.path.join(scratch, "ev"), VERIF_REPLAY_DIR=os.path.join(scratch, "rp"))
         r = subprocess.run([sys.executable, os.path.join(here, "run_check.py"), prop, "--tier", tier], env=env,
